@@ -48,9 +48,10 @@ class Table:
 
 
 class Decoder:
-    def __init__(self, max_version: int = 2) -> None:
+    def __init__(self, max_version: int = 2, strict_graphs: bool = True) -> None:
         self.options: dict | None = None
         self.max_version = max_version
+        self.strict_graphs = strict_graphs  # False: a graph start may replace an open graph
         self.names = self.prefixes = self.datatypes = None
         self.last_prefix = 0
         self.last_name = 0
@@ -246,7 +247,7 @@ class Decoder:
                 terms = self._statement(r["v"], "spog", aud)
                 return [("st", tuple(terms))]
             if kind == "graph_start":
-                if self.graph_open:
+                if self.graph_open and self.strict_graphs:
                     self._bad("graph-start-inside-graph")
                 if "g" not in r["v"]:
                     self._bad("graph-start-without-name")
@@ -283,9 +284,10 @@ class Decoder:
             self._bad("graph-unclosed")
 
 
-def decode_frames(frames: list[dict], *, finish: bool = True, max_version: int = 2):
+def decode_frames(frames: list[dict], *, finish: bool = True, max_version: int = 2,
+                  strict_graphs: bool = True):
     """Return (decoder, per-frame event lists). Raises SpecViolation."""
-    d = Decoder(max_version=max_version)
+    d = Decoder(max_version=max_version, strict_graphs=strict_graphs)
     per = [d.frame(f) for f in frames]
     if finish:
         d.finish()
